@@ -99,6 +99,18 @@ impl<'value, T: 'value> Stream<T> {
 
 impl<'value, T: 'value + Clone + fmt::Display> Stream<T> {
     pub(crate) fn add_value(&mut self, value: T, generation: Generation) -> ExecutionResult<()> {
+        use crate::execution_step::ExecutionError;
+        use crate::UncatchableError;
+
+        // Generations are stored densely and a compacted stream has no empty generations,
+        // so a stream of less than STREAM_MAX_SIZE values never has a generation with
+        // such index; it comes from corrupted data and must not drive an allocation.
+        if let Generation::Previous(generation_idx) | Generation::Current(generation_idx) = generation {
+            if usize::from(generation_idx) >= STREAM_MAX_SIZE {
+                return Err(ExecutionError::Uncatchable(UncatchableError::StreamSizeLimitExceeded));
+            }
+        }
+
         match generation {
             Generation::Previous(previous_gen) => self.previous_values.add_value_to_generation(value, previous_gen),
             Generation::Current(current_gen) => self.current_values.add_value_to_generation(value, current_gen),
